@@ -99,6 +99,17 @@ func FuzzParseTree(f *testing.F) {
 			return // malformed for the reference: totality only
 		}
 		if perr != nil {
+			// rejecting is only wrong for trees git itself accepts: known modes, non-empty names without '/'
+			for _, e := range want {
+				switch e.mode {
+				case 0o40000, 0o100644, 0o100755, 0o120000, 0o160000, 0o100664:
+				default:
+					return
+				}
+				if e.name == "" || strings.Contains(e.name, "/") {
+					return
+				}
+			}
 			t.Fatalf("well-formed tree rejected: %v", perr)
 		}
 		if len(got) != len(want) {
@@ -188,6 +199,21 @@ func FuzzParseCommit(f *testing.F) {
 			return
 		}
 		if err != nil {
+			// rejecting is only wrong for header blocks of the shape git writes: tree first, then parents, then other
+			// headers (continuation lines start with a space and have the key "")
+			if len(kv) == 0 || kv[0][0] != "tree" {
+				return
+			}
+			seenOther := false
+			for _, p := range kv[1:] {
+				if p[0] == "parent" {
+					if seenOther {
+						return
+					}
+				} else {
+					seenOther = true
+				}
+			}
 			t.Fatalf("well-formed commit rejected: %v", err)
 		}
 		if !strings.EqualFold(c.Tree.String(), trees[0]) {
@@ -229,6 +255,15 @@ func FuzzParseTag(f *testing.F) {
 			return
 		}
 		if err != nil {
+			// rejecting is only wrong for the header order git writes (object, type first) and a known type
+			if len(kv) < 2 || kv[0][0] != "object" || kv[1][0] != "type" {
+				return
+			}
+			switch types[0] {
+			case "commit", "tree", "blob", "tag":
+			default:
+				return
+			}
 			t.Fatalf("well-formed tag rejected: %v", err)
 		}
 		if !strings.EqualFold(tg.Referent.String(), objs[0]) || string(tg.ReferentType) != types[0] {
